@@ -286,11 +286,23 @@ int fb_gen_common_c_builder_header(fb_output_t *out)
         "__%sbuild_union_vector_ops(NS, N ## _vec, N, N)\\\n"
         "/* Preserves DAG structure separately for type and value vector, so a type vector could be shared for many value vectors. */\\\n"
         "static inline N ## _union_vec_ref_t N ## _vec_clone(NS ## builder_t *B, N ##_union_vec_t vec)\\\n"
-        "{ N ## _union_vec_ref_t _uvref, _ret = { 0, 0 }; NS ## union_ref_t _uref; size_t _i, _len;\\\n"
+        "{ N ## _union_vec_ref_t _uvref, _ret = { 0, 0 }; NS ## union_ref_t _uref; size_t _i, _len; int _unknown = 0;\\\n"
         "  if (vec.type == 0) return _ret;\\\n"
         "  _uvref.type = flatcc_builder_refmap_find(B, flatcc_builder_refmap_vec_key(vec.type));\\\n"
         "  _uvref.value = flatcc_builder_refmap_find(B, flatcc_builder_refmap_vec_key(vec.value));\\\n"
-        "  _len = N ## _union_vec_len(vec); if (_uvref.type == 0) {\\\n"
+        "  _len = N ## _union_vec_len(vec);\\\n"
+        "  for (_i = 0; _i < _len; ++_i) { if (vec.type[_i] && !N ## _is_known_type(vec.type[_i])) _unknown = 1; }\\\n"
+        "  /* Members this schema does not know are dropped by N_clone: they become NONE in the type vector as well. */\\\n"
+        "  if (_unknown) { flatcc_builder_ref_t _tref = _uvref.type; if (_uvref.type && _uvref.value) return _uvref;\\\n"
+        "  if (flatcc_builder_start_union_vector(B)) return _ret;\\\n"
+        "  for (_i = 0; _i < _len; ++_i) { _uref = N ## _clone(B, N ## _union_vec_at(vec, _i));\\\n"
+        "    if ((!_uref.value && _uref.type) || !(flatcc_builder_union_vector_push(B, _uref))) return _ret; }\\\n"
+        "  _uvref = flatcc_builder_end_union_vector(B); if (_uvref.type == 0 || _uvref.value == 0) return _ret;\\\n"
+        "  if (_tref) { _uvref.type = _tref; } else {\\\n"
+        "  _uvref.type = flatcc_builder_refmap_insert(B, flatcc_builder_refmap_vec_key(vec.type), _uvref.type); }\\\n"
+        "  _uvref.value = flatcc_builder_refmap_insert(B, flatcc_builder_refmap_vec_key(vec.value), _uvref.value);\\\n"
+        "  if (_uvref.type == 0 || _uvref.value == 0) return _ret; return _uvref; }\\\n"
+        "  if (_uvref.type == 0) {\\\n"
         "  _uvref.type = flatcc_builder_refmap_insert(B, flatcc_builder_refmap_vec_key(vec.type), (flatcc_builder_create_type_vector(B, vec.type, _len))); }\\\n"
         "  if (_uvref.type == 0) return _ret; if (_uvref.value == 0) {\\\n"
         "  if (flatcc_builder_start_offset_vector(B)) return _ret;\\\n"
